@@ -132,6 +132,8 @@ def _gen_main(rng, tier):
             rspec["credit"] = {"drip": n, "order": "conn_first" if policy == "drip_conn_first" else "stream_first"}
         else:
             rspec["credit"] = "none"
+        if policy != "none" and rng.random() < 0.2:
+            rspec["prio_after_credit"] = rng.choice([[16], [1, 255], [200, 3, 77]])
         pre = client_preface(fb, rspec)
         client.append(["feed", pre + bytes(blob)])
         # reprioritise / reset mid-flight
